@@ -101,6 +101,11 @@ class Emit(ast.NodeVisitor):
             if self.lang == "rs":
                 return "(script_at(%d, %d - tx(%d).wlen) as u32)" % (row, p, row)
             return "((uint32_t)RDV[%d][%d - CL[%d]])" % (row, p, row)
+        if f == "r":
+            a = n.args[0].value
+            if self.lang == "rs":
+                return "(rf().init(%d) as u32)" % a
+            return "((uint32_t)INIT[%d])" % a
         if f in ("pll126", "pll127"):
             a = self.visit(n.args[0])
             if self.lang == "rs":
@@ -226,6 +231,122 @@ def gen_rust_op(chip, o, pre=""):
     return "\n".join(L)
 
 
+def reg_entries(o, side):
+    """address -> (expr, mask) expected on `side` ('rust'|'c'); None = not compared on that side"""
+    exp = {}
+    for a, v in o["regs"].items():
+        if isinstance(v, list):
+            exp[a] = [(x[0], x[1], len(x) > 2 and x[2] == "late") for x in v]
+        else:
+            e, m = (v if isinstance(v, tuple) else (v, 0xFF))
+            exp[a] = [(e, m, False)]
+    for a in o.get("free_" + side, []):
+        exp[a] = None
+    return exp
+
+
+def gen_rust_regop(chip, o):
+    """register-file operation (SX127x): final register file == specification, everything else unchanged"""
+    e = Emit("rs", None)
+    L = []
+    hid = "c13_%s_%s" % (chip, o["id"])
+    L.append("//@h id=%s props=C13 tier=%s build=phy cost=%d timeout=1800" % (hid, o.get("tier", "quick"), o.get("cost", 120)))
+    dom = ", ".join("%s in %d..=%d" % (n, *prange(k)) for n, k in o["params"]) or "no parameters"
+    L.append("//@bounds %s on the register-file chip model: %s%s; arbitrary prior contents of all 127 registers%s; every register is compared after the operation (the listed ones against the specification, all others must be unchanged)"
+             % (o["id"], dom, ("; assuming " + " and ".join(o["assume"])) if o["assume"] else "", ("; prior state: " + " and ".join(o["assume_init"])) if o.get("assume_init") else ""))
+    L.append("//@encodes %s" % o.get("encodes", o["rust"].split("(")[0]))
+    if o["note"]:
+        L.append("//@assumes %s" % o["note"])
+    L.append("#[kani::proof]")
+    for a in o.get("rust_attrs", []):
+        L.append(a)
+    L.append("#[kani::unwind(26)]\nfn %s() {" % hid)
+    if o.get("rust_attrs"):
+        L.append("    uf_reset();")
+    for n, k in o["params"]:
+        lo, hi = prange(k)
+        L.append("    let %s: u32 = kani::any();" % n)
+        if (lo, hi) != (0, 0xFFFFFFFF):
+            L.append("    kani::assume(%s%s <= %du32);" % (("%s >= %du32 && " % (n, lo)) if lo else "", n, hi))
+    if o.get("payload"):
+        L.append("    let pl: [u8; 255] = kani::any();")
+    L.append("    let mut r = %s;" % (o["radio"] or DEFAULT_RADIO[chip]))
+    for n, x in o["lets"]:
+        L.append("    let %s: u32 = %s;" % (n, e.go(x)))
+    for a in o["assume"] + o.get("assume_init", []):
+        L.append("    kani::assume(%s);" % e.cond(ast.parse(a, mode="eval").body))
+    if o["rust_pre"]:
+        L += ["    " + x for x in o["rust_pre"].strip().splitlines()]
+    for k, call in enumerate(o["rust"] if isinstance(o["rust"], list) else [o["rust"]]):
+        L.append("    kani::assert(block_on(%s).is_ok(), \"C13: %s: driver call failed on a fault-free bus\");" % (call, o["id"]))
+    L.append("    kani::assert(!rf().bad, \"C13: %s: malformed register access\");" % o["id"])
+    exp = reg_entries(o, "rust")
+    LATE = []   # assertions emitted last (Kani assumes an assertion after checking it: a known deviation must not narrow the states the other registers are compared in)
+    for a in range(1, 128):
+        if a == 0x12:
+            continue   # RegIrqFlags is write-1-to-clear: not part of the register file
+        if a in exp:
+            if exp[a] is None:
+                continue
+            for x, m, late in exp[a]:
+                if m == 0xFF:
+                    line = "    kani::assert(rf().get(0x%02X) == (%s) as u8, \"C13: %s: register 0x%02X differs from the reference driver's value\");" % (a, e.go(x), o["id"], a)
+                else:
+                    line = "    kani::assert(rf().get(0x%02X) & 0x%02X == ((%s) as u8) & 0x%02X, \"C13: %s: register 0x%02X (bits 0x%02X) differs from the reference driver's value\");" % (a, m, e.go(x), m, o["id"], a, m)
+                (LATE if late else L).append(line)
+        else:
+            L.append("    kani::assert(rf().get(0x%02X) == rf().init(0x%02X), \"C13: %s: register 0x%02X is modified, the reference driver leaves it alone\");" % (a, a, o["id"], a))
+    if o.get("payload"):
+        L.append("    kani::assert(rf().fifo_n == n as usize, \"C13: %s: number of bytes written to the FIFO\");" % o["id"])
+        for k in range(8):
+            L.append("    kani::assert(!(%d < n as usize) || rf().fifo_head[%d] == pl[%d], \"C13: %s: FIFO byte %d\");" % (k, k, k, o["id"], k))
+        L.append("    kani::assert(!(rf().probe < n as usize) || rf().fifo_probe == pl[rf().probe %% 255], \"C13: %s: FIFO byte at an arbitrary position\");" % o["id"])
+    else:
+        L.append("    kani::assert(rf().fifo_n == 0, \"C13: %s: nothing is written to the FIFO\");" % o["id"])
+    for w in o.get("rust_witness", []):
+        L.append("    " + w)
+    L += LATE
+    L.append("}\n")
+    return "\n".join(L)
+
+
+def gen_c_regop(chip, o):
+    e = Emit("c", None)
+    L = ["void h_%s(void) {" % o["id"]]
+    for n, k in o["params"]:
+        lo, hi = prange(k)
+        L.append("    uint32_t %s = nondet_u32(); __CPROVER_assume(%s >= %du && %s <= %du);" % (n, n, lo, n, hi))
+    if o.get("payload"):
+        L.append("    uint8_t pl[255];   /* uninitialised = arbitrary bytes for CBMC */")
+    L.append("    regfile_reset();")
+    for n, x in o["lets"]:
+        L.append("    uint32_t %s = %s;" % (n, e.go(x)))
+    for a in o["assume"] + o.get("assume_init", []):
+        L.append("    __CPROVER_assume(%s);" % e.cond(ast.parse(a, mode="eval").body))
+    L.append("    radio_prepare();")
+    L += ["    " + x for x in o["c"].strip().splitlines()]
+    L.append("    __CPROVER_assert(!BAD, \"%s: malformed register access\");" % o["id"])
+    exp = reg_entries(o, "c")
+    for a in range(1, 128):
+        if a == 0x12:
+            continue
+        if a in exp:
+            if exp[a] is None:
+                continue
+            for x, m, _late in exp[a]:
+                L.append("    __CPROVER_assert((REG[%d] & 0x%02X) == ((uint8_t)(%s) & 0x%02X), \"%s: register 0x%02X\");" % (a, m, e.go(x), m, o["id"], a))
+        else:
+            L.append("    __CPROVER_assert(REG[%d] == INIT[%d], \"%s: register 0x%02X unchanged\");" % (a, a, o["id"], a))
+    if o.get("payload"):
+        L.append("    __CPROVER_assert(FIFO_N == n, \"%s: FIFO length\");" % o["id"])
+        L.append("    { uint32_t j = nondet_u32(); __CPROVER_assume(j < n && j < 255); __CPROVER_assert(FIFO[j] == pl[j], \"%s: FIFO byte\"); }" % o["id"])
+    else:
+        L.append("    __CPROVER_assert(FIFO_N == 0, \"%s: nothing written to the FIFO\");" % o["id"])
+    L.append("    __CPROVER_assert(0, \"witness: end of %s reached\");" % o["id"])
+    L.append("}\n")
+    return "\n".join(L)
+
+
 # ---- C (CBMC) side ------------------------------------------------------------------------------
 C_PRELUDE = r"""// generated by lib/c13gen.py -- CBMC harness over Semtech's reference driver (SWL2001)
 #include <stdint.h>
@@ -267,6 +388,61 @@ sx126x_hal_status_t sx126x_hal_wakeup(const void* c) { return SX126X_HAL_STATUS_
 static const sx126x_lora_sf_t SFS[8] = { SX126X_LORA_SF5, SX126X_LORA_SF6, SX126X_LORA_SF7, SX126X_LORA_SF8, SX126X_LORA_SF9, SX126X_LORA_SF10, SX126X_LORA_SF11, SX126X_LORA_SF12 };
 static const sx126x_lora_bw_t BWS[10] = { SX126X_LORA_BW_007, SX126X_LORA_BW_010, SX126X_LORA_BW_015, SX126X_LORA_BW_020, SX126X_LORA_BW_031, SX126X_LORA_BW_041, SX126X_LORA_BW_062, SX126X_LORA_BW_125, SX126X_LORA_BW_250, SX126X_LORA_BW_500 };
 static const sx126x_lora_cr_t CRS[4] = { SX126X_LORA_CR_4_5, SX126X_LORA_CR_4_6, SX126X_LORA_CR_4_7, SX126X_LORA_CR_4_8 };
+""",
+}
+
+
+C_PRELUDE_REGS = r"""// generated by lib/c13gen.py -- CBMC harness over Semtech's reference driver (SWL2001), register-file chip model
+#include <stdint.h>
+#include <stdbool.h>
+#include <stddef.h>
+static uint8_t REG[128], INIT[128], FIFO[256];
+static unsigned FIFO_N;
+static int BAD;
+uint8_t nondet_u8(void);
+uint32_t nondet_u32(void);
+#include "sx127x.c"
+static sx127x_t RADIO;
+sx127x_radio_id_t sx127x_hal_get_radio_id(const sx127x_t* radio) { return radio->radio_id; }
+void sx127x_hal_dio_irq_attach(const sx127x_t* radio) {}
+void sx127x_hal_reset(const sx127x_t* radio) {}
+uint32_t sx127x_hal_get_dio_1_pin_state(const sx127x_t* radio) { return nondet_u32(); }
+sx127x_hal_status_t sx127x_hal_timer_start(const sx127x_t* radio, const uint32_t t, void (*cb)(void*)) { return SX127X_HAL_STATUS_OK; }
+sx127x_hal_status_t sx127x_hal_timer_stop(const sx127x_t* radio) { return SX127X_HAL_STATUS_OK; }
+bool sx127x_hal_timer_is_started(const sx127x_t* radio) { return false; }
+sx127x_hal_status_t sx127x_hal_write(const sx127x_t* radio, const uint16_t address, const uint8_t* data, const uint16_t n) {
+    for (unsigned i = 0; i < n; i++) {
+        if (address == 0) { if (FIFO_N < 256) FIFO[FIFO_N] = data[i]; FIFO_N++; }
+        else { unsigned a = address + i; uint8_t b = data[i];
+               if (a == 0x12) {}
+               else if (a == 1) { /* LongRangeMode only writable in sleep with a write that stays in sleep */
+                   uint8_t cur = REG[1]; REG[1] = ((cur & 7) == 0 && (b & 7) == 0) ? b : (uint8_t)((cur & 0x80) | (b & 0x7F)); }
+               else if (a < 128) REG[a] = b; else BAD = 1; }
+    }
+    return SX127X_HAL_STATUS_OK;
+}
+sx127x_hal_status_t sx127x_hal_read(const sx127x_t* radio, const uint16_t address, uint8_t* data, const uint16_t n) {
+    for (unsigned i = 0; i < n; i++) data[i] = (address == 0) ? nondet_u8() : REG[(address + i) & 127];
+    return SX127X_HAL_STATUS_OK;
+}
+static void regfile_reset(void) {
+    __CPROVER_havoc_object(INIT);
+    __CPROVER_array_copy(REG, INIT);
+    FIFO_N = 0; BAD = 0;
+}
+"""
+
+C_RADIO_PREPARE = {
+    "sx1276": """static void radio_prepare(void) {
+    RADIO.radio_id = RADIO_ID;
+    /* both drivers select the LoRa packet engine at start-up; the register file already says so
+       (prior-state assumption), hence this only arms the driver's shadow state */
+    sx127x_set_pkt_type(&RADIO, SX127X_PKT_TYPE_LORA);
+    __CPROVER_assert(RADIO.pkt_type == SX127X_PKT_TYPE_LORA, "shadow packet type is LoRa");
+}
+static const sx127x_lora_sf_t SFS[7] = { SX127X_LORA_SF6, SX127X_LORA_SF7, SX127X_LORA_SF8, SX127X_LORA_SF9, SX127X_LORA_SF10, SX127X_LORA_SF11, SX127X_LORA_SF12 };
+static const sx127x_lora_bw_t BWS[10] = { SX127X_LORA_BW_007, SX127X_LORA_BW_010, SX127X_LORA_BW_015, SX127X_LORA_BW_020, SX127X_LORA_BW_031, SX127X_LORA_BW_041, SX127X_LORA_BW_062, SX127X_LORA_BW_125, SX127X_LORA_BW_250, SX127X_LORA_BW_500 };
+static const sx127x_lora_cr_t CRS[4] = { SX127X_LORA_CR_4_5, SX127X_LORA_CR_4_6, SX127X_LORA_CR_4_7, SX127X_LORA_CR_4_8 };
 """,
 }
 
@@ -324,7 +500,7 @@ def free(name):
 
 
 # ---- SX126x specification ------------------------------------------------------------------------
-DEFAULT_RADIO = {"sx126x": "radio_1262()"}
+DEFAULT_RADIO = {"sx126x": "radio_1262()", "sx1272": "Sx127x::new(RegSpi::new(), MockIv::new(), Config { chip: Sx1272, tcxo_used: false, tx_boost: kani::any(), rx_boost: kani::any() })", "sx1276": "Sx127x::new(RegSpi::new(), MockIv::new(), Config { chip: Sx1276, tcxo_used: false, tx_boost: kani::any(), rx_boost: kani::any() })"}
 MP126 = "let mp = ModulationParams { spreading_factor: sf_of(sf), bandwidth: bw_of(bw), coding_rate: cr_of(cr), low_data_rate_optimize: ldro as u8, frequency_in_hz: 868_100_000 };"
 RADIO_BOOST = "Sx126x::new(MockSpi::new(), MockIv::new(), Config { chip: Sx1262, tcxo_ctrl: None, use_dcdc: kani::any(), rx_boost: boost != 0 })"
 SYMB_LETS = [("ns", "248 if n > 248 else n"), ("m0", "(ns + 1) >> 1"), ("exp", "1 if m0 > 31 else 0"), ("mant", "((m0 + 3) >> 2) if m0 > 31 else m0")]
@@ -423,7 +599,165 @@ def ops_sx126x():
     return O
 
 
+# ---- SX1276 specification (register-file outcome) ---------------------------------------------------
+# every operation assumes the chip is in LoRa mode (both drivers' start-up) with the high-frequency
+# register page: RegOpMode bits 7..3 = 1000_0
+LORA_MODE = "(r(1) & 0xF8) == 0x80"
+RADIO_1276 = "Sx127x::new(RegSpi::new(), MockIv::new(), Config { chip: Sx1276, tcxo_used: false, tx_boost: %s, rx_boost: kani::any() })"
+MP1276 = "let mp = ModulationParams { spreading_factor: sf_of(sf + 1), bandwidth: bw_of(bw), coding_rate: cr_of(cr), low_data_rate_optimize: ldro as u8, frequency_in_hz: kani::any() };"
+
+
+def regop(id, **kw):
+    d = op(id, kind="regs", regs={}, assume_init=[LORA_MODE], free_rust=[], free_c=[])
+    d.update(kw)
+    if LORA_MODE not in d["assume_init"]:
+        d["assume_init"] = [LORA_MODE] + d["assume_init"]
+    return d
+
+
+def mod_params_1276(id, bwfix, tier="quick"):
+    params = [("sf", "idx(7)"), ("cr", "idx(4)"), ("ldro", "bool")]
+    lets = []
+    if bwfix is None:
+        params.insert(1, ("bw", "idx(10)"))
+    else:
+        lets = [("bw", str(bwfix))]
+    return regop(id, params=params, lets=lets, tier=tier, cost=600 if bwfix is None else 300, radio=RADIO_1276 % "kani::any()",
+                 rust_pre=MP1276, rust="r.set_modulation_params(&mp)",
+                 encodes="Sx127x::set_modulation_params, Sx1276::set_modulation_params, Sx1276::bandwidth_value, spreading_factor_value, coding_rate_denominator_value",
+                 note="errata 2.3 (RegIfFreq1/2, AutomaticIFOn) and 2.1 (RegHighBwOptimize1/2) are applied by the Rust driver with the modulation parameters and by the reference on SetRx: registers 0x2F, 0x30, 0x36, 0x3A and bit 7 of 0x31 are the documented errata sequence and not compared",
+                 c="sx127x_lora_mod_params_t p = { .sf = SFS[sf], .bw = BWS[bw], .cr = CRS[cr], .ldro = (uint8_t)ldro };\nsx127x_set_lora_mod_params(&RADIO, &p);",
+                 regs={0x1D: "(r(0x1D) & 0x01) | (bw << 4) | ((cr + 1) << 1)",
+                       0x1E: "(r(0x1E) & 0x0F) | ((sf + 6) << 4)",
+                       # two entries: the AgcAutoOn bit is a recorded finding (F-C13-2) and is asserted last
+                       0x26: [("(r(0x26) & 0xF7) | (ldro << 3)", 0xFB), ("r(0x26)", 0x04, "late")],
+                       0x31: ("(r(0x31) & 0xF8) | (5 if sf == 0 else 3)", 0x7F),
+                       0x37: "0x0C if sf == 0 else 0x0A"},
+                 free_rust=[0x2F, 0x30, 0x36, 0x3A])
+
+
+def ops_sx1276():
+    O = []
+    O.append(regop("rf_freq", params=[("f", "u32")], radio=RADIO_1276 % "kani::any()", rust="r.set_channel(f)", lets=[("w", "pll127(f)")],
+                   rust_attrs=["#[kani::stub(crate::sx127x::freq_to_pll_step, uf_pll127)]"],
+                   rust_witness=["kani::cover!(w == 0x0012_3456, \"PLL conversion replaced by the uninterpreted function\");"],
+                   note="freq_to_pll_step is replaced by an uninterpreted function in this harness; its equality with the reference kernel for every frequency is the E2 job c13_pll_equiv",
+                   encodes="Sx127x::set_channel (the three Frf registers; the word itself: c13_pll_equiv)", smt=True,
+                   c="sx127x_set_rf_freq(&RADIO, f);", regs={6: "w >> 16", 7: "w >> 8", 8: "w"}))
+    O.append(regop("standby", radio=RADIO_1276 % "kani::any()", rust="r.set_standby()", c="sx127x_set_standby(&RADIO);", regs={1: "0x81"}))
+    O.append(regop("sleep", radio=RADIO_1276 % "kani::any()", rust="r.set_sleep(false, &mut MockDelay)", c="sx127x_set_sleep(&RADIO);", regs={1: "0x80"},
+                   assume_init=["(r(1) & 7) != 0"],
+                   note="prior mode other than sleep: the reference writes the mode bits only (0x00), which on a chip already asleep would also clear LongRangeMode; the Rust driver rewrites the full byte"))
+    O.append(regop("sync_word", params=[("s", "u8")], radio=RADIO_1276 % "kani::any()",
+                   rust="r.set_lora_sync_word(crate::mod_params::sync_word_from_legacy(s as u8))", encodes="Sx127x::set_lora_sync_word, sync_word_to_legacy",
+                   c="sx127x_set_lora_sync_word(&RADIO, (uint8_t)s);", regs={0x39: "s"}))
+    O.append(regop("symb_timeout", params=[("n", "range(1,1023)")], radio=RADIO_1276 % "kani::any()", rust="r.set_lora_symbol_num_timeout(n as u16)",
+                   c="sx127x_set_lora_sync_timeout(&RADIO, (uint16_t)n);",
+                   regs={0x1E: "(r(0x1E) & 0xFC) | (n >> 8)", 0x1F: "n & 0xFF"}))
+    # TX power: q = requested dBm + 128 (0..=255 stands for -128..=127)
+    O.append(regop("tx_power_boost", params=[("q", "u8"), ("prep", "bool")], radio=RADIO_1276 % "true",
+                   lets=[("c", "130 if q < 130 else (148 if q > 148 else q)"), ("hi", "1 if c > 145 else 0"), ("opw", "(c - 128 - (5 if hi else 2)) & 0x0F")],
+                   assume_init=["(r(0x0A) & 0xF0) == 0", "(r(0x4D) & 0xF8) == 0x80"],
+                   rust="r.set_tx_power_and_ramp_time(q as i32 - 128, None, prep != 0)",
+                   encodes="Sx127x::set_tx_power_and_ramp_time, Sx1276::set_tx_power (PA_BOOST), Sx1276::ramp_value",
+                   note="the reference takes the clamped power and the +20 dBm switch from its caller (passed here as the Rust driver chooses them: clamp to 2..=20, PaDac above 17 dBm); MaxPower (RegPaConfig bits 6:4) is unused with PA_BOOST and not compared; the over-current trim (RegOcp) is set by the Rust driver only; reserved bits of RegPaRamp/RegPaDac assumed at their reset values (the reference keeps them, the Rust driver writes them)",
+                   c="sx127x_pa_cfg_params_t pc = { .pa_select = SX127X_PA_SELECT_BOOST, .is_20_dbm_output_on = hi != 0 };\nsx127x_set_pa_cfg(&RADIO, &pc);\nsx127x_set_tx_params(&RADIO, (int8_t)((int)c - 128), prep ? SX127X_RAMP_40_US : SX127X_RAMP_250_US);",
+                   regs={0x09: ("0x80 | opw", 0x8F), 0x0A: "9 if prep else 4", 0x4D: "0x87 if hi else 0x84"}, free_rust=[0x0B]))
+    O.append(regop("tx_power_rfo", params=[("q", "u8"), ("prep", "bool")], radio=RADIO_1276 % "false",
+                   lets=[("c", "124 if q < 124 else (142 if q > 142 else q)"), ("pos", "1 if c > 128 else 0"), ("opw", "((c - 128) if pos else (c - 124)) & 0x0F")],
+                   assume_init=["(r(0x0A) & 0xF0) == 0", "(r(0x4D) & 0xF8) == 0x80"],
+                   rust="r.set_tx_power_and_ramp_time(q as i32 - 128, None, prep != 0)",
+                   encodes="Sx127x::set_tx_power_and_ramp_time, Sx1276::set_tx_power (RFO)",
+                   note="as tx_power_boost; clamp to -4..=14 dBm, MaxPower 7 above 0 dBm and 0 otherwise",
+                   c="sx127x_pa_cfg_params_t pc = { .pa_select = SX127X_PA_SELECT_RFO, .is_20_dbm_output_on = false };\nsx127x_set_pa_cfg(&RADIO, &pc);\nsx127x_set_tx_params(&RADIO, (int8_t)((int)c - 128), prep ? SX127X_RAMP_40_US : SX127X_RAMP_250_US);",
+                   regs={0x09: "((7 if pos else 0) << 4) | opw", 0x0A: "9 if prep else 4", 0x4D: "0x84"}, free_rust=[0x0B]))
+    O.append(mod_params_1276("mod_params_bw125", 7))
+    O.append(mod_params_1276("mod_params_bw500", 9))
+    O.append(mod_params_1276("mod_params_bw7", 0))
+    O.append(mod_params_1276("mod_params_any_bw", None, tier="thorough"))
+    O.append(regop("pkt_params", params=[("pre", "u16"), ("imp", "bool"), ("plen", "u8"), ("crc", "bool"), ("iq", "bool")], radio=RADIO_1276 % "kani::any()", cost=300,
+                   rust_pre="let pp = PacketParams { preamble_length: pre as u16, implicit_header: imp != 0, payload_length: plen as u8, crc_on: crc != 0, iq_inverted: iq != 0 };",
+                   rust="r.set_packet_params(&pp)", encodes="Sx127x::set_packet_params, Sx1276::set_packet_params",
+                   note="the reference's set_lora_pkt_params is a composite: it also forces standby (0x01), zeroes both FIFO base addresses (0x0E, 0x0F) and pins RegPayloadLength/RegMaxPayloadLength (0x22, 0x23); the Rust driver writes the IQ registers (0x33, 0x3B) here while the reference does so in set_tx/set_rx, and RegPayloadLength only for implicit headers: those registers are the documented differences and not compared",
+                   c="sx127x_lora_pkt_params_t p = { .preamble_len_in_symb = (uint16_t)pre, .header_type = imp ? SX127X_LORA_PKT_IMPLICIT : SX127X_LORA_PKT_EXPLICIT, .pld_len_in_bytes = (uint8_t)plen, .crc_is_on = crc != 0, .invert_iq_is_on = iq != 0 };\nsx127x_set_lora_pkt_params(&RADIO, &p);",
+                   regs={0x1D: "(r(0x1D) & 0xFE) | imp", 0x1E: "(r(0x1E) & 0xFB) | (crc << 2)", 0x20: "pre >> 8", 0x21: "pre & 0xFF"},
+                   free_c=[0x01, 0x0E, 0x0F, 0x22, 0x23], free_rust=[0x22, 0x33, 0x3B]))
+    O.append(regop("payload", params=[("n", "range(0,255)")], payload=True, radio=RADIO_1276 % "kani::any()", cost=200,
+                   rust="r.set_payload(&pl[..n as usize])", encodes="Sx127x::set_payload, write_buffer",
+                   note="the reference zeroes RegFifoTxBaseAddr (0x0E) here, the Rust driver in set_tx_rx_buffer_base_address: not compared on the reference side",
+                   c="RADIO.lora_pkt_params.pld_len_in_bytes = (uint8_t)n;\nsx127x_write_buffer(&RADIO, 0, pl, (uint8_t)n);",
+                   regs={0x0D: "0", 0x22: "n"}, free_c=[0x0E]))
+    O.append(regop("tx_start", radio=RADIO_1276 % "kani::any()", rust="r.do_tx()", encodes="Sx127x::do_tx",
+                   note="the reference's set_tx also pushes the IQ configuration (0x33, 0x3B) and its shadow DIO mapping (0x40, 0x41) at this point; the Rust driver does so in set_packet_params / set_irq_params: not compared on the reference side",
+                   c="sx127x_set_tx(&RADIO);", regs={1: "0x83"}, free_c=[0x33, 0x3B, 0x40, 0x41]))
+    return O
+
+
+# ---- SX1272 specification --------------------------------------------------------------------------
+RADIO_1272 = "Sx127x::new(RegSpi::new(), MockIv::new(), Config { chip: Sx1272, tcxo_used: false, tx_boost: %s, rx_boost: kani::any() })"
+
+
+def ops_sx1272():
+    O = []
+    for o in ops_sx1276():
+        if o["id"] in ("rf_freq", "standby", "sleep", "sync_word", "symb_timeout", "payload", "tx_start"):
+            o = dict(o)
+            o["radio"] = RADIO_1272 % "kani::any()"
+            O.append(o)
+    O.append(regop("mod_params", params=[("sf", "idx(7)"), ("bw", "idx(3)"), ("cr", "idx(4)"), ("ldro", "bool")], radio=RADIO_1272 % "kani::any()", cost=300,
+                   rust_pre="let mp = ModulationParams { spreading_factor: sf_of(sf + 1), bandwidth: bw_of(bw + 7), coding_rate: cr_of(cr), low_data_rate_optimize: ldro as u8, frequency_in_hz: kani::any() };",
+                   rust="r.set_modulation_params(&mp)", encodes="Sx127x::set_modulation_params, Sx1272::set_modulation_params, Sx1272::bandwidth_value, coding_rate_value",
+                   c="sx127x_lora_mod_params_t p = { .sf = SFS[sf], .bw = BWS[bw + 7], .cr = CRS[cr], .ldro = (uint8_t)ldro };\nsx127x_set_lora_mod_params(&RADIO, &p);",
+                   regs={0x1D: "(r(0x1D) & 0x06) | (bw << 6) | ((cr + 1) << 3) | ldro",
+                         0x1E: "(r(0x1E) & 0x0F) | ((sf + 6) << 4)",
+                         0x31: "(r(0x31) & 0xF8) | (5 if sf == 0 else 3)",
+                         0x37: "0x0C if sf == 0 else 0x0A"}))
+    O.append(regop("pkt_params", params=[("pre", "u16"), ("imp", "bool"), ("plen", "u8"), ("crc", "bool"), ("iq", "bool")], radio=RADIO_1272 % "kani::any()", cost=300,
+                   rust_pre="let pp = PacketParams { preamble_length: pre as u16, implicit_header: imp != 0, payload_length: plen as u8, crc_on: crc != 0, iq_inverted: iq != 0 };",
+                   rust="r.set_packet_params(&pp)", encodes="Sx127x::set_packet_params, Sx1272::set_packet_params",
+                   note="as for the SX1276: the reference's composite also forces standby, zeroes the FIFO base addresses and pins RegPayloadLength/RegMaxPayloadLength; the Rust driver writes the IQ registers here and RegPayloadLength only for implicit headers",
+                   c="sx127x_lora_pkt_params_t p = { .preamble_len_in_symb = (uint16_t)pre, .header_type = imp ? SX127X_LORA_PKT_IMPLICIT : SX127X_LORA_PKT_EXPLICIT, .pld_len_in_bytes = (uint8_t)plen, .crc_is_on = crc != 0, .invert_iq_is_on = iq != 0 };\nsx127x_set_lora_pkt_params(&RADIO, &p);",
+                   regs={0x1D: "(r(0x1D) & 0xF9) | (imp << 2) | (crc << 1)", 0x20: "pre >> 8", 0x21: "pre & 0xFF"},
+                   free_c=[0x01, 0x0E, 0x0F, 0x22, 0x23], free_rust=[0x22, 0x33, 0x3B]))
+    # TX power: q = requested dBm + 128
+    O.append(regop("tx_power_boost", params=[("q", "u8"), ("prep", "bool")], radio=RADIO_1272 % "true",
+                   lets=[("hi", "1 if q > 145 else 0"),
+                         ("c", "(133 if q < 133 else (148 if q > 148 else q)) if hi else (130 if q < 130 else (145 if q > 145 else q))"),
+                         ("opw", "(c - 128 - (5 if hi else 2)) & 0x0F")],
+                   assume_init=["(r(0x0A) & 0xF0) == 0x10", "(r(0x5A) & 0xF8) == 0x80"],
+                   rust="r.set_tx_power_and_ramp_time(q as i32 - 128, None, prep != 0)",
+                   encodes="Sx127x::set_tx_power_and_ramp_time, Sx1272::set_tx_power (PA_BOOST), Sx1272::ramp_value",
+                   note="the reference takes the clamped power and the +20 dBm switch from its caller (passed as the Rust driver chooses them: above 17 dBm PaDac on and clamp to 5..=20, else clamp to 2..=17); RegPaConfig bits 6:4 are unused on the SX1272 and not compared; reserved bits of RegPaRamp (LowPnTxPllOff = 1) and RegPaDac assumed at their reset values",
+                   c="sx127x_pa_cfg_params_t pc = { .pa_select = SX127X_PA_SELECT_BOOST, .is_20_dbm_output_on = hi != 0 };\nsx127x_set_pa_cfg(&RADIO, &pc);\nsx127x_set_tx_params(&RADIO, (int8_t)((int)c - 128), prep ? SX127X_RAMP_40_US : SX127X_RAMP_250_US);",
+                   regs={0x09: ("0x80 | opw", 0x8F), 0x0A: "0x10 | (9 if prep else 4)", 0x5A: "0x87 if hi else 0x84"}))
+    O.append(regop("tx_power_rfo", params=[("q", "u8"), ("prep", "bool")], radio=RADIO_1272 % "false",
+                   lets=[("c", "127 if q < 127 else (142 if q > 142 else q)"), ("opw", "(c - 127) & 0x0F")],
+                   assume_init=["(r(0x0A) & 0xF0) == 0x10", "(r(0x5A) & 0xF8) == 0x80"],
+                   rust="r.set_tx_power_and_ramp_time(q as i32 - 128, None, prep != 0)",
+                   encodes="Sx127x::set_tx_power_and_ramp_time, Sx1272::set_tx_power (RFO)",
+                   note="clamp to -1..=14 dBm (OutputPower = Pout + 1); otherwise as tx_power_boost",
+                   c="sx127x_pa_cfg_params_t pc = { .pa_select = SX127X_PA_SELECT_RFO, .is_20_dbm_output_on = false };\nsx127x_set_pa_cfg(&RADIO, &pc);\nsx127x_set_tx_params(&RADIO, (int8_t)((int)c - 128), prep ? SX127X_RAMP_40_US : SX127X_RAMP_250_US);",
+                   regs={0x09: ("opw", 0x8F), 0x0A: "0x10 | (9 if prep else 4)", 0x5A: "0x84"}))
+    return O
+
+
 RS_HEAD = {
+    "sx1272": """//@file anchor=lora-phy/src/sx127x/mod.rs
+// GENERATED by lib/c13gen.py from the C13 register specification -- do not edit; regenerated on
+// every run of `check.py C13`.  Rust side of C13 for the SX1272 (reference: SWL2001 sx127x.c, -DSX1272).
+use super::*;
+use crate::verif_kani_lora_phy_mock::*;
+use crate::verif_kani_lora_phy_regmock::{rf, RegSpi};
+""",
+    "sx1276": """//@file anchor=lora-phy/src/sx127x/mod.rs
+// GENERATED by lib/c13gen.py from the C13 register specification -- do not edit; regenerated on
+// every run of `check.py C13`.  Rust side of C13 for the SX1276: the register file the driver
+// leaves behind equals the specification that CBMC proves Semtech's reference driver (SWL2001
+// sx127x.c, -DSX1276) to follow (lib/engines.py job c13_reference_sx1276).
+use super::*;
+use crate::verif_kani_lora_phy_mock::*;
+use crate::verif_kani_lora_phy_regmock::{rf, RegSpi};
+""",
     "sx126x": """//@file anchor=lora-phy/src/sx126x/mod.rs
 // GENERATED by lib/c13gen.py from the C13 byte specification -- do not edit; regenerated on every
 // run of `check.py C13`.  Rust side of C13: the SX126x driver's SPI bytes equal the specification
@@ -435,19 +769,20 @@ use super::verif_kani_lora_phy_sx126x_h::{radio_1261, radio_1262, radio_wl};
 }
 
 
-CHIPS = ("sx126x",)
-C_DEFINES = {"sx127x": ["-DSX1276"]}
+CHIPS = ("sx126x", "sx1276", "sx1272")
+C_DEFINES = {"sx127x": ["-DSX1276"], "sx1276": ["-DSX1276"], "sx1272": ["-DSX1272"]}
+C_SRC = {"sx126x": "sx126x", "sx1276": "sx127x", "sx1272": "sx127x"}
 
 
 def ops_for(chip):
-    return {"sx126x": ops_sx126x}[chip]()
+    return {"sx126x": ops_sx126x, "sx1276": ops_sx1276, "sx1272": ops_sx1272}[chip]()
 
 
 def generate(chips=("sx126x",)):
     """(re)write the generated Rust harness files; returns the list of paths"""
     out = []
     for chip in chips:
-        text = RS_HEAD[chip] + "\n" + "\n".join(gen_rust_op(chip, o) for o in ops_for(chip))
+        text = RS_HEAD[chip] + "\n" + "\n".join((gen_rust_regop if o.get("kind") == "regs" else gen_rust_op)(chip, o) for o in ops_for(chip))
         path = os.path.join(VERIF, "harness", "lora-phy", "c13_%s_gen.rs" % chip)
         old = open(path).read() if os.path.exists(path) else None
         if old != text:
@@ -457,11 +792,15 @@ def generate(chips=("sx126x",)):
 
 
 def c_harness(chip):
-    return C_PRELUDE + C_HAL[chip] + "\n" + "\n".join(gen_c_op(chip, o) for o in ops_for(chip))
+    ops = ops_for(chip)
+    if ops and ops[0].get("kind") == "regs":
+        rid = {"sx1276": "SX127X_RADIO_ID_SX1276", "sx1272": "SX127X_RADIO_ID_SX1272"}[chip]
+        return C_PRELUDE_REGS + "#define RADIO_ID %s\n" % rid + C_RADIO_PREPARE["sx1276"] + "\n" + "\n".join(gen_c_regop(chip, o) for o in ops)
+    return C_PRELUDE + C_HAL[chip] + "\n" + "\n".join(gen_c_op(chip, o) for o in ops)
 
 
 if __name__ == "__main__":
     import sys
-    print("\n".join(generate()))
+    print("\n".join(generate(CHIPS)))
     if len(sys.argv) > 1:
         open(sys.argv[1], "w").write(c_harness("sx126x"))
